@@ -1168,6 +1168,53 @@ pub fn c14(em: &mut Emit, thorough: bool, seed: u64) {
     }
 }
 
+/// C14 across a tick of the wall clock: an entity whose modification time lies a second ahead
+/// (clock skew) is served, the clock passes that time, and the SAME entity is served again on the
+/// same thread with nothing in between. The second response is an ordinary one — the time is in
+/// the past now — so `Last-Modified` must be the modification time truncated to the second, and
+/// echoing it must give 304. (Whatever was worked out for the first response, when the time was
+/// still ahead, must not be served again.)
+pub fn c14_clock_crossing(em: &mut Emit) {
+    HISTORY_QUIET.store(true, std::sync::atomic::Ordering::SeqCst);
+    for (etag, len) in [(Some(&b"\"s1\""[..]), 10u64), (None, 1000)] {
+        let now = std::time::SystemTime::now().duration_since(UNIX_EPOCH).unwrap();
+        // 300 ms into the second after next: between 1.3 and 2.3 s ahead
+        let m_secs = now.as_secs() + 2;
+        let m = UNIX_EPOCH + Duration::new(m_secs, 300_000_000);
+        let mut e = HEntity::new(len);
+        e.etag = etag.map(|t| t.to_vec());
+        e.mtime = Some(m);
+        let q = HReq::get();
+        let first = observe_serve(&q, &e);
+        // a few more while the time is still ahead
+        let _ = observe_serve(&q, &e);
+        while std::time::SystemTime::now() < m + Duration::from_millis(50) {
+            heartbeat(|| "waiting for the wall clock to pass a modification time".into());
+            std::thread::sleep(Duration::from_millis(50));
+        }
+        let second = observe_serve(&q, &e);
+        let want = httpdate::fmt_http_date(UNIX_EPOCH + Duration::from_secs(m_secs));
+        let got = second.raw_headers.iter().find(|(n, _)| n == "last-modified").map(|(_, v)| String::from_utf8_lossy(v).to_string());
+        let p = pred(!second.panicked && got.as_deref() == Some(want.as_str()), || {
+            format!(
+                "entity modified at {} (+0.3 s), served before that time (Last-Modified {:?}) and again after it: Last-Modified {:?}, expected {}",
+                m_secs,
+                first.raw_headers.iter().find(|(n, _)| n == "last-modified").map(|(_, v)| String::from_utf8_lossy(v).to_string()),
+                got,
+                want
+            )
+        });
+        em.case(&serve_line(&q, &e, second.now), &second.show(), &p, "clock-crossing");
+        // echo what the second response said
+        let mut q2 = HReq::get();
+        q2.ims = got.as_deref().map(|g| classify_date(g.as_bytes())).unwrap_or(DateH::Absent);
+        let third = observe_serve(&q2, &e);
+        let p = pred(third.status == 304, || format!("If-Modified-Since echoing the Last-Modified served after the clock passed it: {} not 304", third.status));
+        em.case(&serve_line(&q2, &e, third.now), &third.show(), &p, "clock-crossing-echo");
+    }
+    HISTORY_QUIET.store(false, std::sync::atomic::Ordering::SeqCst);
+}
+
 // ---------------------------------------------------------------------------------------
 // C15 (serve part; the streaming_body part is in suites_neg)
 
